@@ -495,7 +495,15 @@ def rule_r345(prog: Program, col: Collector) -> None:
         col.check(bool(ones) and okz, ref.where(), ref.short, "fallback = ones(number_of_coalitions) with the node's own coalitions set to 0", construct=f"fallback:{name}",
                   necessity="strategies must be supported only on coalitions not yet revealed at that node")
         rets = list(f2.of_kind("return"))
-        okr = bool(rets) and all(r.value[0] == "bin" and r.value[1] == "/" and r.value[3] == ("call", ("global", "numpy.sum"), (r.value[2],), ()) for r in rets)
+        def _is_normalised(v) -> bool:
+            if v[0] == "bin" and v[1] == "/" and v[3] == ("call", ("global", "numpy.sum"), (v[2],), ()):
+                return True
+            # the vector and its sum named separately under the same condition (`total = x.sum()` bound before and re-bound in the fallback branch):
+            # every consistent alternative of the conditionals is x / x.sum()
+            from .coalitions import _alternatives
+            alts = _alternatives(v)
+            return len(alts) > 1 and all(a[0] == "bin" and a[1] == "/" and a[3] == ("call", ("global", "numpy.sum"), (a[2],), ()) for _c, a in alts)
+        okr = bool(rets) and all(_is_normalised(r.value) for r in rets)
         col.check(okr, ref.where(), ref.short, "returns x / x.sum() (a probability distribution)", construct=f"normalise:{name}",
                   necessity="every current and average strategy is a probability distribution")
         # what is divided by its sum is either the fallback or a vector tested, itself, for a zero sum
